@@ -310,6 +310,7 @@ def oblige_hooks(S: Any, W: World, tag: str, lock_is_callers_duty: bool = False)
 # ------------------------------------------------------------------------------------------
 
 REG_OPS = ["get", "drain_expired", "shutdown", "close"]
+REACQUIRE = ["none", "reaper_after_ttl", "shutdown", "second_request_after_ttl"]
 
 
 def replay_registry(inputs: dict[str, Any], ob: Any) -> ReplayResult:
@@ -334,6 +335,20 @@ def registry_paths(S: Any) -> None:
     W = World(S, tracked_expires=expA, now=now)
     W.eB.fields["expires_at"] = expB
     W.origin = op
+    # a registry method that lets go of the registry lock and takes it again has a scheduling point in between: by the
+    # time it holds the lock again another thread may have run any registry operation to completion
+    reacquire = REACQUIRE[S.choose(len(REACQUIRE))]
+    S.inputs["interference_at_reacquire"] = reacquire
+    n_acq = {"n": 0}
+
+    def on_acquire(S: Any, lid: str) -> None:
+        if lid != "registry._lock" or W.cur != "req":
+            return
+        n_acq["n"] += 1
+        if n_acq["n"] == 2 and reacquire != "none":
+            W.interfere(reacquire)
+
+    S.handlers["Lock.on_acquire"] = on_acquire
     if op == "get":
         out = S.outcome(sk._SessionRegistry.get, W.reg, A, W.pk)
         ended = [W.stA] if A not in W.entries else []
@@ -353,7 +368,7 @@ def registry_paths(S: Any) -> None:
     closed = [h[1] for h in hooks(S)]
     S.oblige("O2.every_removed_session_is_closed_exactly_once", sorted(id(s) for s in closed) == sorted(id(s) for s in ended), kind="trace", witness=op)
     S.oblige("O2.all_locks_released", not W.held["req"], kind="lock")
-    if op in ("get", "drain_expired"):
+    if op in ("get", "drain_expired") and not S.events("interference"):  # (evictions by the interfering thread are its own)
         S.oblige("O2.only_expired_sessions_are_evicted", And(Implies(A not in W.entries, expA < now), Implies(B_ID not in W.entries, expB < now)), kind="post")
     if op == "drain_expired":
         S.canary("O2.canary.the_reaper_never_evicts", SBool(__import__("z3").BoolVal(not closed)))
